@@ -211,6 +211,22 @@ func (e *Engine) initIntrinsics() {
 		e.tickPreload = false
 		return nil
 	}
+	// vpBlocksWithTick(f, d): as vpRunWithTick but EVERY timer, ticker and time.After channel f creates holds one tick; reports whether f is left blocked (on any path) instead of returning.
+	I["vp:vpBlocksWithTick"] = func(e *Engine, a []Value, pos token.Pos, fn *ssa.Function) Value {
+		d := a[1].(*Term)
+		e.clock = tb.Ite(e.G, tb.BVOp(OpAdd, e.clock, d), e.clock)
+		e.tickAll = true // every timer / ticker / time.After channel created by f holds one tick
+		defer func() { e.tickAll = false }()
+		e.tickPreload = true
+		c := &Catcher{PanicG: tb.False, BlockG: tb.False, CatchBlock: true}
+		e.catchers = append(e.catchers, c)
+		G0 := e.G
+		e.callFuncV(a[0].(*FuncV), nil, pos)
+		e.catchers = e.catchers[:len(e.catchers)-1]
+		e.G = tb.Or(e.G, tb.And(G0, c.BlockG))
+		e.tickPreload = false
+		return c.BlockG
+	}
 	I["vp:vpPanics"] = func(e *Engine, a []Value, pos token.Pos, fn *ssa.Function) Value {
 		c := &Catcher{PanicG: tb.False, BlockG: tb.False, CatchPanic: true}
 		e.catchers = append(e.catchers, c)
@@ -479,6 +495,11 @@ func (e *Engine) initIntrinsics() {
 	timerChan := func(e *Engine, a []Value, pos token.Pos, fn *ssa.Function) Value {
 		ct := types.NewChan(types.SendRecv, fn.Pkg.Pkg.Scope().Lookup("Time").Type())
 		c := e.newChan(ct, 1, "time."+fn.Name())
+		if e.tickAll {
+			for _, al := range c.Alts {
+				e.enqueue(al.Obj, e.clock, pos)
+			}
+		}
 		return c
 	}
 	I["time.After"] = timerChan
@@ -492,7 +513,7 @@ func (e *Engine) initIntrinsics() {
 		ch := e.newChan(ct, 1, "ticker.C")
 		nf[0] = ch
 		o.V = &StructV{nf}
-		if e.tickPreload {
+		if e.tickPreload || e.tickAll {
 			e.tickPreload = false
 			for _, al := range ch.Alts {
 				e.enqueue(al.Obj, e.clock, pos)
